@@ -10,6 +10,7 @@ package c07
 import (
 	"bytes"
 	"fmt"
+	"io"
 	"math"
 
 	"github.com/EliCDavis/polyform/formats/stl"
@@ -175,6 +176,9 @@ func (k checker) runValues(base int) {
 			k.saveOver(seq)
 		}
 	}
+	if c.Mine(base + len(f32Ladder) + 100) {
+		k.afterFailedWrite()
+	}
 	c.Bound("e.save_sequences", "every sequence of 1..3 stl.Save calls over meshes of 5, 2 and 0 triangles to one path; the file must equal the in-memory write of the last")
 	c.Bound("d.value_ladder", fmt.Sprintf("%d float32 values, each in every float slot of a record (vertices: whole pipeline; normal: Read->Write) and in every position component of a two-triangle mesh (exact and x(1+2^-25), which must round)", len(f32Ladder)))
 }
@@ -230,4 +234,30 @@ func (k checker) saveOver(seq []int) {
 		return
 	}
 	k.c.Eval(scope, "ok")
+}
+
+// ---- a write after a failed write ---------------------------------------------------------------
+
+func (k checker) afterFailedWrite() {
+	cs := Case{Kind: "after-failed-write"}
+	mesh := func(it int) modeling.Mesh {
+		n := []int{400, 3}[it]
+		idx := make([]int, 0, 3*n)
+		pos := make([]vector3.Float64, n+2)
+		for i := range pos {
+			pos[i] = vector3.New(float64(i)+0.5*float64(it), float64(i*i), -float64(i))
+		}
+		for f := 0; f < n; f++ {
+			idx = append(idx, f+2, f, f+1)
+		}
+		return modeling.NewTriangleMesh(idx).SetFloat3Attribute(modeling.PositionAttribute, pos)
+	}
+	k.c.Nontrivial("after-failed-write")
+	why := core.AfterFailedWrite(core.FailLimits, func(it int, w io.Writer) error { return stl.WriteMesh(w, mesh(it)) })
+	if why != "" {
+		k.c.Eval("files/after-failed-write", "mismatch")
+		k.fail("stl.WriteMesh", "writing a mesh yields exactly the 84 + 50*n bytes of that mesh (also right after an earlier write failed)", "after-failed-write", why, cs)
+		return
+	}
+	k.c.Eval("files/after-failed-write", "ok")
 }
